@@ -5,6 +5,7 @@
    hist.pair <u|i> <ctorA> h:<opsA> <ctorB> h:<opsB>   two histories, then ==, cmp, hash, exports, max, min
 
    ctor (BigUint):  vec:<u64 digits>  new:<u32 words>  slice:<u32 words>  le:<hexbytes>  be:<hexbytes>  serde:<u32 words>
+                    radle:<radix>:<hex digit bytes>  radbe:<radix>:<hex digit bytes>      (BigInt: radle:<s>:<radix>:<..>)
    ctor (BigInt):   parts:<s>:<u64 digits>  new:<s>:<words>  slice:<s>:<words>  le:<s>:<bytes>  be:<s>:<bytes>
                     sle:<bytes>  sbe:<bytes>  serde:<s>:<words>  fromu:<u64 digits>          (<s> in - 0 +)
    op:  add|sub|div|rem|and|or|xor|clone|divfloor|modfloor|diveuclid|remeuclid|divceil :<Y>
@@ -39,6 +40,8 @@ let parse_ctor (kind : string) (s : string) : Hist.ctor =
     | "le" -> Hist.CUBytesLe (hexbytes rest)
     | "be" -> Hist.CUBytesBe (hexbytes rest)
     | "serde" -> Hist.CUSerde (digits_of_string rest)
+    | "radle" -> let (r, b) = cut rest in Hist.CURadixLe (hexbytes b, z_of_dec r)
+    | "radbe" -> let (r, b) = cut rest in Hist.CURadixBe (hexbytes b, z_of_dec r)
     | _ -> failwith ("bad ctor " ^ s)
   else
     match name with
@@ -55,6 +58,8 @@ let parse_ctor (kind : string) (s : string) : Hist.ctor =
        | "le" -> Hist.CIBytesLe (sg, hexbytes body)
        | "be" -> Hist.CIBytesBe (sg, hexbytes body)
        | "serde" -> Hist.CISerde (sg, digits_of_string body)
+       | "radle" -> let (r, b) = cut body in Hist.CIRadixLe (sg, hexbytes b, z_of_dec r)
+       | "radbe" -> let (r, b) = cut body in Hist.CIRadixBe (sg, hexbytes b, z_of_dec r)
        | _ -> failwith ("bad ctor " ^ s))
 
 let parse_operand (s : string) : Hist.obj =
